@@ -175,7 +175,7 @@ def evaluate(case) -> Result:
             elif kind == "CONNECT_FAIL" and cur is not None:
                 w.connect_result(cur, False, 111)
             elif kind == "CEA" and cur is not None and cur.remote.direction == "out":
-                w.answer_cer(cur, ev[1], auth=(4,), host="peer1.example")
+                w.answer_cer(cur, ev[1], auth=(4,), host="peer1.example", spelled=case.get("spell"))
             elif kind == "INBOUND" and not live_p1():
                 ld = state["last_disc"]
                 dial_due = f["persistent"] and f["addr"] and (
@@ -184,7 +184,7 @@ def evaluate(case) -> Result:
                     # known finding (simultaneous open): the accept wakes the I/O loop, which dials in the same turn
                     res.classes.append("excluded:simultaneous-open")
                     continue
-                ci = w.handshake_in("peer1.example", auth=[4], ip="10.1.1.1", hbh=0x200 + i)
+                ci = w.handshake_in("peer1.example", auth=[4], ip="10.1.1.1", hbh=0x200 + i, spelled=case.get("spell"))
                 if ci is not None:
                     inbound_cids[ci.remote.cid] = ci
             elif kind == "DWA":
@@ -192,7 +192,7 @@ def evaluate(case) -> Result:
                 tgt = [c for c in w.conns if (c.host == "peer1.example") and not c.node_closed and not c.peer_closed]
                 if tgt:
                     hbh += 1
-                    w.feed_msg(tgt[-1], {"k": "DWA", "host": "peer1.example", "hbh": hbh, "e2e": hbh})
+                    w.feed_msg(tgt[-1], {"k": "DWA", "host": case.get("spell") or "peer1.example", "hbh": hbh, "e2e": hbh})
                     res.classes.append("dwa-event")
             elif kind == "CLOSE" and cur is not None:
                 w.peer_close(cur)
@@ -205,7 +205,7 @@ def evaluate(case) -> Result:
                 overdue = ready and nc.is_waiting_for_dwa and nc.dwa_wait_time >= 10
                 hbh += 1
                 n0 = len(cur.refresh())
-                w.feed_msg(cur, {"k": "DPR", "host": "peer1.example", "hbh": hbh, "e2e": hbh})
+                w.feed_msg(cur, {"k": "DPR", "host": case.get("spell") or "peer1.example", "hbh": hbh, "e2e": hbh})
                 if overdue and cur.refresh() is not None and cur.node_closed and \
                         w.node.peers["peer1.example"].disconnect_reason == pm.DISCONNECT_REASON_DWA_TIMEOUT:
                     res.classes.append("dpr-after-watchdog-expiry")
@@ -239,7 +239,8 @@ def evaluate(case) -> Result:
             res.classes.append("cross:thread-died")
         losses, waited, reason_dpr = state["losses"], state["waited"], state["reason_dpr"]
         res.nontrivial = f["persistent"] and losses >= 1 and waited
-        res.classes += [f"persistent:{f['persistent']}", f"always:{f['always']}", f"addr:{f['addr']}",
+        res.classes += ["identity:respelled" if case.get("spell") else "identity:as-configured",
+                        f"persistent:{f['persistent']}", f"always:{f['always']}", f"addr:{f['addr']}",
                         f"losses:{min(losses, 3)}", f"dials:{min(len(w.net.connect_calls), 4)}",
                         "reason-dpr" if reason_dpr else "reason-other"]
         res.sample = {"case": case, "connects": [(int(t) - t_start, a[0]) for t, a, _ in w.net.connect_calls][:10]}
@@ -351,7 +352,7 @@ def shard_main(shard, nshards, tier, scale):
                        st.tuples(st.just("DPR")), st.tuples(st.just("DPR")), st.tuples(st.just("DWA")), st.tuples(st.just("DPR_CLOSE")))
         plan = draw(st.lists(st.sampled_from(["ok", "inprogress", "inprogress", ["sync-error", 111], ["sync-error", 101]]),
                              max_size=6))
-        return {"flags": flags, "dial_plan": plan, "seed": draw(st.integers(0, 3)),
+        return {"flags": flags, "dial_plan": plan, "seed": draw(st.integers(0, 3)), "spell": draw(st.sampled_from([None, None, "PEER1.Example"])),
                 "events": [list(e) for e in draw(st.lists(ev, min_size=1, max_size=30))]}
 
     def body(case):
@@ -395,7 +396,7 @@ def shard_main(shard, nshards, tier, scale):
                 ev.append(["INBOUND"])
                 ev.append(draw(st.sampled_from([["CLOSE"], ["DPR_CLOSE"], ["RESET"]])))
             ev.append(["ADV", draw(st.sampled_from([wait - 1 if wait > 1 else 1, wait, wait + wake + 2, wait + wake + 2]))])
-        return {"flags": flags, "dial_plan": plan, "seed": draw(st.integers(0, 3)), "events": ev}
+        return {"flags": flags, "dial_plan": plan, "seed": draw(st.integers(0, 3)), "spell": draw(st.sampled_from([None, None, "PEER1.Example"])), "events": ev}
 
     def cbody(case):
         res = evaluate(case)
@@ -445,7 +446,7 @@ def run(tier, scale=1.0):
     rec = Recorder(PID)
     for d in hyp.pool_run(shard_main, (tier, scale)):
         rec.merge(d)
-    required = {"stop-race-schedule": 1, "persistent:True": 1, "persistent:False": 1, "always:True": 1, "addr:False": 1, "losses:2": 1,
+    required = {"identity:respelled": 1, "stop-race-schedule": 1, "persistent:True": 1, "persistent:False": 1, "always:True": 1, "addr:False": 1, "losses:2": 1,
                 "dpr-on-ready": 1, "dwa-event": 1, "dwr-outstanding-at-dpr": 1, "reason-dpr": 1, "dials:3": 1, "loss:sync-refused": 1, "loss:cea-timeout": 1}
     return finish(rec, tier=tier, level="exploration", rule=RULE, assumptions=ASSUME, t0=t0,
                   required_classes=required)
